@@ -462,10 +462,16 @@ def gen_source(rng, header, col_kinds, odd):
     r = rng.random()
     if r < 0.12:
         lead = rng.choice(["\n", "\n\n", "  \n", "\t\n \n", " \r\n"])
-    sep = lambda: rng.choice([" ", " ", " ", "  ", "\t", " \t"])
+    # blanks between entries: space and TAB, sometimes a lone CR or FF (both are blanks, neither is a line break)
+    odd_sep = rng.random() < 0.12 * (1 + odd)
+    sep = lambda: rng.choice([" ", " ", " ", "  ", "\t", " \t"] + ([" \r", "\r", " \r "] if odd_sep else []))
     h = (rng.choice(["", "", "", " ", "\t"]) + "".join(n + sep() for n in header)).rstrip(" \t") + rng.choice(["", "", " ", "\t"])
     if not header:
         h = ""
+    if header and rng.random() < 0.05 * (1 + odd):
+        # a character that other notions of white space know, in front of / inside the header line: it is part of a NAME
+        ch = rng.choice(["\u00a0", "\u0085", "\u2003", "\u2028", "\u3000", "\ufeff"])
+        h = rng.choice([ch + h, h.replace(header[0], header[0] + ch, 1), h + ch])
     lines = [lead + h]
     nrows = rng.choice([0, 1, 1, 2, 3, 4])
     body_ok = True
